@@ -136,16 +136,16 @@ def run_seq(ops, maxlen, impl='diskcache', via='Deque', seed=0, tid=1):
                             b.__exit__(None, None, None)
                     elif blocks:
                         # an exception raised inside a block passes through every enclosing block
-                        exc = RuntimeError('abort')
+                        exc = RuntimeError('abort') if len(ev) % 2 else KeyboardInterrupt()
                         while blocks:
                             b = blocks.pop()
                             if impl == 'stdlib':
                                 d = b
                             else:
                                 try:
-                                    if b.__exit__(RuntimeError, exc, None):
+                                    if b.__exit__(type(exc), exc, None):
                                         ret = R('swallowed')
-                                except RuntimeError:
+                                except (RuntimeError, KeyboardInterrupt):
                                     pass
                 except Exception as exc:       # the library failed at block entry / exit: a result the specification judges
                     ret = R(type(exc).__name__)
